@@ -415,7 +415,7 @@ var _ = bank.ModuleName
 func c13ModulePKeys(snap map[string][]byte) map[string]bool {
 	out := map[string]bool{}
 	for k := range snap {
-		for _, m := range []string{"auth:p:", "bank:p:", "vm:p:", "node:p:"} {
+		for _, m := range []string{"auth:p:", "bank:p:", "vm:p:"} { // struct-backed modules: every field is written at genesis
 			if strings.HasPrefix(k, m) {
 				out[k] = true
 			}
@@ -587,7 +587,10 @@ func c13Exec(ctx *vk.Ctx, c c13Case) error {
 					return fmt.Errorf("%s: wrote %q, expected only %q", label, k, want)
 				}
 			}
-			if exp, det := c13Expected(op.Setter, op.Val); det {
+			// inside the recover block a refused write is swallowed and the tx still succeeds
+			swallowed := op.Ctx == "recover" && len(changed) == 0
+			ctx.ClassIf(swallowed, "refusal-swallowed-by-recover")
+			if exp, det := c13Expected(op.Setter, op.Val); det && !swallowed {
 				got, present := after[want]
 				if !present || !bytes.Equal(got, exp) {
 					return fmt.Errorf("%s: after an accepted write record %q holds %q (present=%v), want %q", label, want, got, present, exp)
